@@ -42,10 +42,13 @@ Init == sc \in {[kind |-> "head", data |-> d, lam |-> l] : d \in DataSets, l \in
 Pick == /\ sc.kind = "head" /\ UNCHANGED <<out, done>>
         /\ \E lv \in Levs(Len(sc.data)), cg \in Chgs(Len(sc.data)), sp \in Spans(Len(sc.data)), lg \in BOOLEAN,
               \* a second change constraint, later than the first one (which may sit in the first period of the filter span and is then dropped)
-              c2 \in {None, <<Len(sc.data) - 1, 1>>, <<2, CNeg2>>} :
+              c2 \in {None, <<Len(sc.data) - 1, 1>>, <<2, CNeg2>>},
+              \* the requested span may be written backward, Span(hi, lo, -1): it still only clips the output
+              rv \in BOOLEAN :
+             /\ (rv => sp = <<CNeg1, Len(sc.data)>>)
              /\ (c2 # None => (cg # None /\ cg[1] < c2[1] /\ cg[1] <= 1 /\ Len(sc.data) >= 3))
              /\ (lg => (\A i \in 1..Len(sc.data) : IF sc.data[i] = NaN THEN TRUE ELSE sc.data[i] >= 0))
-             /\ \E nx \in {[kind |-> "hp", data |-> sc.data, lam |-> sc.lam, lev |-> lv, chg |-> cg, chg2 |-> c2, span |-> sp, log |-> lg]} :
+             /\ \E nx \in {[kind |-> "hp", data |-> sc.data, lam |-> sc.lam, lev |-> lv, chg |-> cg, chg2 |-> c2, span |-> sp, rev |-> rv, log |-> lg]} :
                   \* TLC integers are 32-bit: keep the KKT system small enough for fraction-free elimination
                   /\ (Hi(nx) - Lo(nx) + 1) + (IF lv = None THEN 0 ELSE 1) + (IF cg = None THEN 0 ELSE 1) + (IF c2 = None THEN 0 ELSE 1) <= (IF sc.lam = 1 THEN 7 ELSE 6)      \* (also for lam = 2)
                   /\ sc' = nx
